@@ -174,8 +174,11 @@ def b_or(a, b):
     return ("or", a, b)
 
 
+FOLD = [True]      # constant folding over exact rationals; switched off for the float shadow (float ops are not exact)
+
+
 def arith(op, a, b):
-    if is_const(a) and is_const(b):
+    if FOLD[0] and is_const(a) and is_const(b):
         x, y = a[1], b[1]
         if op == "+":
             return const(x + y)
@@ -359,6 +362,88 @@ def coq_defs(k):
             if n in lets:
                 lines.append("  let %s : %s := %s in" % (n, t, coq_expr(be)))
         lines.append("  %s." % coq_expr(e))
+        out.append("\n".join(lines))
+    return "\n".join(out) + "\n"
+
+
+# ------------------------------------------------------------------------------------------------ float shadow
+def float_lit(fr):
+    x = float(fr)                      # correctly rounded, like the Python literal
+    h = x.hex()
+    return "(%s)" % h if x < 0 else h
+
+
+def coq_fexpr(e):
+    """the same expression tree over PrimFloat (only + - * / abs max sqrt, x**2, comparisons); anything else raises"""
+    t = e[0]
+    if t == "c":
+        return float_lit(e[1])
+    if t in ("v", "r", "bv", "br"):
+        return e[1]
+    if t in ("+", "-", "*", "/"):
+        return "(%s %s %s)" % (coq_fexpr(e[1]), t, coq_fexpr(e[2]))
+    if t == "neg":
+        return "(- %s)" % coq_fexpr(e[1])
+    if t == "abs":
+        return "(abs %s)" % coq_fexpr(e[1])
+    if t == "sqrt":
+        return "(sqrt %s)" % coq_fexpr(e[1])
+    if t == "max":
+        return "(fmax %s %s)" % (coq_fexpr(e[1]), coq_fexpr(e[2]))
+    if t == "pow" and e[2] == 2:
+        return "(fsq %s)" % coq_fexpr(e[1])          # numpy evaluates x ** 2 as x * x
+    if t == "pow" and e[2] == 1:
+        return coq_fexpr(e[1])
+    if t == "ite":
+        return "(if %s then %s else %s)" % (coq_fexpr(e[1]), coq_fexpr(e[2]), coq_fexpr(e[3]))
+    if t == "T":
+        return "true"
+    if t == "F":
+        return "false"
+    if t == "le":
+        return "(%s <=? %s)" % (coq_fexpr(e[1]), coq_fexpr(e[2]))
+    if t == "lt":
+        return "(%s <? %s)" % (coq_fexpr(e[1]), coq_fexpr(e[2]))
+    if t == "eq":
+        return "(%s =? %s)" % (coq_fexpr(e[1]), coq_fexpr(e[2]))
+    if t == "not":
+        return "(negb %s)" % coq_fexpr(e[1])
+    if t in ("and", "or"):
+        return "(%sb %s %s)" % (t, coq_fexpr(e[1]), coq_fexpr(e[2]))
+    raise TranslateError("not expressible over PrimFloat: %r" % (t,))
+
+
+FHEADER = """(* GENERATED by tools/translate/kernels.py - float shadow: the kernel's expression tree over PrimFloat (binary64,
+   round to nearest even, like numpy), constants NOT folded, literals correctly rounded.  Used only to validate the
+   translator bit-exactly against numpy (thorough tier); no theorem depends on it. *)
+From Coq Require Import Floats Bool List ZArith.
+Import ListNotations.
+Open Scope float_scope.
+Definition fmax (a b : float) : float := if a <? b then b else a.
+Definition fsq (a : float) : float := a * a.
+(* same value: equal, or both NaN (the sign of zero is not distinguished) *)
+Definition fsame (a b : float) : bool := (a =? b) || (is_nan a && is_nan b).
+"""
+
+
+def float_defs(k, outputs=None):
+    """Definition <kernel>_<out>_f over float for a kernel translated with fold=False"""
+    sig = k.signature()
+    for n, t in sig:
+        if t not in ("R", "bool"):
+            raise TranslateError("float shadow: input %s has type %s" % (n, t))
+    binders = " ".join("(%s : %s)" % (n, "float" if t == "R" else "bool") for n, t in sig)
+    out = []
+    for name, typ, e in k.outputs:
+        if outputs is not None and name not in outputs:
+            continue
+        lets, ins = set(), set()
+        k.deps(e, lets, ins)
+        lines = ["Definition %s_%s_f %s : %s :=" % (k.name, name, binders, "float" if typ == "R" else "bool")]
+        for (n, t, be) in k.bindings:
+            if n in lets:
+                lines.append("  let %s : %s := %s in" % (n, "float" if t == "R" else "bool", coq_fexpr(be)))
+        lines.append("  %s." % coq_fexpr(e))
         out.append("\n".join(lines))
     return "\n".join(out) + "\n"
 
@@ -1119,7 +1204,7 @@ class Exec:
 
 # ------------------------------------------------------------------------------------------------ entry point
 def translate(rel, fname, params, name=None, outputs=None, drop_outputs=(), graph=(), bool_inputs=None,
-              opaque_calls=None, attr_consts=None):
+              opaque_calls=None, attr_consts=None, fold=True):
     """Translate function `fname` of src/pandapipes/<rel>.
 
     params: {param: kind} with kind in
@@ -1169,7 +1254,11 @@ def translate(rel, fname, params, name=None, outputs=None, drop_outputs=(), grap
             args.append(V("unused", p))
         else:
             raise TranslateError("bad parameter kind %r" % (kind,))
-    ret = ex.run(fdef, args)
+    FOLD[0] = fold
+    try:
+        ret = ex.run(fdef, args)
+    finally:
+        FOLD[0] = True
     # outputs
     names = outputs
     rnode = [s for s in ast.walk(fdef) if isinstance(s, ast.Return)][-1]
